@@ -5,6 +5,7 @@
 //!   adsb-sim selftest
 
 mod reader;
+mod tracker;
 
 use std::path::PathBuf;
 
@@ -43,6 +44,10 @@ fn main() {
             let rf = load_replay(&path);
             let code = match rf.engine.as_str() {
                 "R" => replay_with(&reader::ReaderEngine, &rf, &path),
+                "T12" => replay_with(&tracker::TrackerEngine { prop: "C12" }, &rf, &path),
+                "T13" => replay_with(&tracker::TrackerEngine { prop: "C13" }, &rf, &path),
+                "T14" => replay_with(&tracker::TrackerEngine { prop: "C14" }, &rf, &path),
+                "T15" => replay_with(&tracker::TrackerEngine { prop: "C15" }, &rf, &path),
                 other => harness_error(&format!("unknown engine {other} in replay file")),
             };
             std::process::exit(code);
@@ -56,6 +61,16 @@ fn check(prop: &str, tier: &str) -> i32 {
         "C19" => {
             let cfg = BatchCfg::from_env(tier, 400_000, 40_000_000, 120.0, 1500.0);
             run_batch(&reader::ReaderEngine, &cfg).exit_code
+        }
+        "C12" | "C13" | "C14" | "C15" => {
+            let p: &'static str = match prop {
+                "C12" => "C12",
+                "C13" => "C13",
+                "C14" => "C14",
+                _ => "C15",
+            };
+            let cfg = BatchCfg::from_env(tier, 60_000, 4_000_000, 120.0, 1500.0);
+            run_batch(&tracker::TrackerEngine { prop: p }, &cfg).exit_code
         }
         _ => harness_error(&format!("no check for property {prop}")),
     }
